@@ -58,7 +58,8 @@ HARNESSES = [
     dict(name="rd_fill_files", file="rd_fill_files.c",
          label="bounded(file list <= 2, tree <= 3 nodes)", unwind=5, timeout=600,
          fp={"destroy": ["out_destroy", "in_destroy"], "flush": "out_flush"},
-         cases=[dict(id="add_file", defines={"RD_CASE": 0}, tier="quick"),
+         cases=[dict(id="add_file_n%d_m%d" % (n, m), defines={"RD_CASE": 0, "RD_N0": n, "RD_M0": m},
+                     tier="quick", timeout=200) for (n, m) in ((0, 0), (1, 1), (2, 2), (1, 2))] + [
                 dict(id="unpack", defines={"RD_CASE": 1}, tier="quick")]),
     dict(name="alloc", file="alloc.c", label="bounded(item size in {1,8,16})", timeout=120,
          cases=[dict(id="item%d" % n, defines={"ITEM": n}, tier="quick") for n in (1, 8, 16)]),
